@@ -577,7 +577,7 @@ class IntervalTier(textgrid_tier.TextgridTier):
                     newEntryList.append(
                         (
                             start + duration,
-                            start + duration + (interval.end - start),
+                            interval.end + duration,
                             interval.label,
                         )
                     )
